@@ -2,8 +2,12 @@
 // do not mix).  Counts every mutating file-system call that touches a path under VERIF_FS_ROOT (or a
 // descriptor / mapping opened from there) and `_exit(87)`s just BEFORE the VERIF_KILL_FS-th one, which
 // leaves the files exactly as a SIGKILL between two system calls would (dirty MAP_SHARED pages stay in
-// the page cache and are what the next process reads).  With VERIF_KILL_TORN=1 a counted write of
-// n > 1 bytes is cut to n/2 bytes before the exit (a kill while a large write is in flight).
+// the page cache and are what the next process reads).  With VERIF_KILL_TORN=1 a counted write of more
+// than one page is cut at the last page boundary before its end (the kernel copies a write page by page and
+// looks for a fatal signal in between, so this is what a kill while a large write is in flight leaves).
+//
+// Counted: open(O_CREAT new | O_TRUNC non-empty | O_RDWR existing), fopen(w/a), write, pwrite, writev, ftruncate, truncate,
+// rename, unlink, remove, mkdir, mmap(MAP_SHARED|PROT_WRITE), munmap / msync of such a mapping.
 //
 //   VERIF_FS_ROOT   absolute prefix of the workspace (required; nothing is counted without it)
 //   VERIF_KILL_FS   1-based index of the op to die at (0 / unset = never)
@@ -82,6 +86,9 @@ static int tick(const char* op, const char* what, long size) {
 
 static void die(void) { _exit(87); }
 
+// bytes of an n-byte write that reach the file when the kill comes while it is in flight
+static size_t torn_len(size_t n) { return n > 4096 ? ((n - 1) / 4096) * 4096 : 0; }
+
 static void track(int fd, const char* path) {
   if (fd >= 0 && fd < MAXFD) {
     g_tracked[fd] = 1;
@@ -107,6 +114,10 @@ static int open_common(const char* name, const char* path, int flags, mode_t mod
     if ((!exists && (flags & O_CREAT)) || (exists && (flags & O_TRUNC) && st.st_size > 0)) {
       if (tick(exists ? "open-trunc" : "open-creat", rel(path), exists ? (long)st.st_size : 0)) die();
     }
+  }
+  else if (mine && (flags & O_RDWR)) {
+    // an existing file is about to be modified in place (MappedFile after Create/Resize)
+    if (access(path, F_OK) == 0 && tick("open-rw", rel(path), 0)) die();
   }
   int fd = use_at ? ropenat(dirfd, path, flags, mode) : ropen(path, flags, mode);
   if (mine && fd >= 0 && (flags & (O_WRONLY | O_RDWR))) track(fd, path);
@@ -160,7 +171,7 @@ int close(int fd) {
 ssize_t write(int fd, const void* buf, size_t n) {
   ssize_t (*rwrite)(int, const void*, size_t) = dlsym(RTLD_NEXT, "write");
   if (is_tracked(fd) && tick("write", g_fdpath[fd], (long)n)) {
-    if (g_torn && n > 1) rwrite(fd, buf, n / 2);
+    if (g_torn && torn_len(n)) rwrite(fd, buf, torn_len(n));
     die();
   }
   return rwrite(fd, buf, n);
@@ -168,7 +179,7 @@ ssize_t write(int fd, const void* buf, size_t n) {
 ssize_t pwrite(int fd, const void* buf, size_t n, off_t off) {
   ssize_t (*r)(int, const void*, size_t, off_t) = dlsym(RTLD_NEXT, "pwrite");
   if (is_tracked(fd) && tick("pwrite", g_fdpath[fd], (long)n)) {
-    if (g_torn && n > 1) r(fd, buf, n / 2, off);
+    if (g_torn && torn_len(n)) r(fd, buf, torn_len(n), off);
     die();
   }
   return r(fd, buf, n, off);
@@ -176,7 +187,7 @@ ssize_t pwrite(int fd, const void* buf, size_t n, off_t off) {
 ssize_t pwrite64(int fd, const void* buf, size_t n, off_t off) {
   ssize_t (*r)(int, const void*, size_t, off_t) = dlsym(RTLD_NEXT, "pwrite64");
   if (is_tracked(fd) && tick("pwrite", g_fdpath[fd], (long)n)) {
-    if (g_torn && n > 1) r(fd, buf, n / 2, off);
+    if (g_torn && torn_len(n)) r(fd, buf, torn_len(n), off);
     die();
   }
   return r(fd, buf, n, off);
@@ -187,9 +198,14 @@ ssize_t writev(int fd, const struct iovec* iov, int cnt) {
     long n = 0;
     for (int i = 0; i < cnt; ++i) n += (long)iov[i].iov_len;
     if (tick("writev", g_fdpath[fd], n)) {
-      if (g_torn && cnt > 0 && iov[0].iov_len > 0) {
+      if (g_torn && torn_len((size_t)n)) {
         ssize_t (*rwrite)(int, const void*, size_t) = dlsym(RTLD_NEXT, "write");
-        rwrite(fd, iov[0].iov_base, iov[0].iov_len);   // first vector only
+        size_t left = torn_len((size_t)n);
+        for (int i = 0; i < cnt && left; ++i) {
+          size_t k = iov[i].iov_len < left ? iov[i].iov_len : left;
+          rwrite(fd, iov[i].iov_base, k);
+          left -= k;
+        }
       }
       die();
     }
@@ -242,6 +258,7 @@ int mkdir(const char* p, mode_t m) {
 // ---- mappings ----------------------------------------------------------------------------------
 void* mmap(void* addr, size_t len, int prot, int flags, int fd, off_t off) {
   void* (*r)(void*, size_t, int, int, int, off_t) = dlsym(RTLD_NEXT, "mmap");
+  if ((flags & MAP_SHARED) && (prot & PROT_WRITE) && is_tracked(fd) && tick("mmap-rw", g_fdpath[fd], (long)len)) die();
   void* p = r(addr, len, prot, flags, fd, off);
   if (p != MAP_FAILED && (flags & MAP_SHARED) && (prot & PROT_WRITE) && is_tracked(fd)) {
     for (int i = 0; i < MAXMAP; ++i)
